@@ -12,6 +12,7 @@ M3  the recorded events are validated by TLC against spec/Engine/KVRefTrace.tla 
 import json, os, sys, re, subprocess
 sys.path.insert(0, os.path.join(os.path.dirname(os.path.abspath(__file__)), "..", "lib"))
 from vlib import *
+from vpar import validate_traces_parallel
 
 CFGS = [
     {"mem": "skiplist"}, {"mem": "art"},
@@ -358,7 +359,7 @@ def run(ctx):
     order = sorted(traces)
     tl = [[project(e, scheds[s].get("vmap")) for e in traces[s]] for s in order]
     # ---------------------------------------------------------------- M3
-    rejected = ctx.validate_traces("KVRefTrace", "KVRefTrace.cfg", tl, timeout=1200)
+    rejected = validate_traces_parallel(ctx, "KVRefTrace", "KVRefTrace.cfg", tl, timeout=1800, chunk=600)
     nevents = sum(len(t) for t in tl)
     ctx.log("M3: %d traces / %d events validated, %d rejected" % (len(tl), nevents, len(rejected)))
     classes = {}
